@@ -302,7 +302,7 @@ def coverage_twins_check(ctx, text, ref, work):
     shutil.rmtree(d, ignore_errors=True)
     os.makedirs(os.path.join(d, "cpu"))
     os.makedirs(os.path.join(d, "gpu"))
-    for rel in ("cpu/kernel.cpp", "gpu/kernel.cpp"):
+    for rel in ("cpu/kernel.cpp", "gpu/.kernel.cpp"):          # (the second name starts with a dot: a source file like any other)
         with open(os.path.join(d, rel), "w") as f:
             f.write(text)
     with open(os.path.join(d, "other.c"), "w") as f:
@@ -317,7 +317,7 @@ def coverage_twins_check(ctx, text, ref, work):
         return [{"kind": "cbi-cov failed", "stderr": err[-300:]}]
     cov = {e["file"]: e for e in json.load(open(covp))}
     problems = []
-    for rel in ("cpu/kernel.cpp", "gpu/kernel.cpp"):
+    for rel in ("cpu/kernel.cpp", "gpu/.kernel.cpp"):
         e = cov.get(rel)
         got = sorted(set(e["used_lines"]) | set(e["unused_lines"])) if e else None
         if got != ref.counted:
